@@ -459,3 +459,31 @@ PROPS["C10"]["runs"] += [
     _ps("verifH_C10_ps_onmsg", ["ps_c10.go.txt"], name="TPS.OnMsg then the KeyGen steps consuming the stored share / key", extra=["-asn1havoc"], count=["panic:", "deadlock:"], covers=["returned", "share-stored", "key-stored"], no_native_replay=True,
         bounds={"message": "share / commitment / reveal with arbitrary payload (vectors of length 0..2)"}),
 ]
+
+_C19_RD = ("github.com/golang/protobuf/proto.Unmarshal=verifProtoUnmarshal,math/big.NewInt=verifNewInt,(*math/big.Int).Cmp=verifCmp,(*math/big.Int).Uint64=verifUint64,"
+           "(*github.com/bnb-chain/tss-lib/v2/tss.MessageWrapper_PartyID).KeyInt=verifKeyInt,github.com/bnb-chain/tss-lib/v2/tss.NewPartyID=verifNewPartyID,"
+           "github.com/bnb-chain/tss-lib/v2/tss.ParseWireMessage=verifParseWire,github.com/bnb-chain/tss-lib/v2/tss.RegisterCurve=verifRegisterCurve,crypto/elliptic.P256=verifP256,"
+           "github.com/bnb-chain/tss-lib/v2/tss.SetCurve=verifSetCurve,github.com/bnb-chain/tss-lib/v2/tss.Edwards=verifEdwards")
+
+
+def _c19(scheme, entry, covers, bounds):
+    return dict(name="%s adapter: %s" % (scheme, entry), dir="mpc/binance/" + scheme, files=["gen/%s_c19.go.txt" % scheme, "gen/%s_oracle.go.txt" % scheme], entry=entry,
+                args=["-preempt", "0", "-redirect", _C19_RD + ",(*github.com/IBM/TSS/mpc/binance/%s.party).locatePartyIndex=verifLocate" % scheme], replay_args=["-nativeredirect"],
+                count=["assert:C19-", "panic:"], expect_covers=covers, bounds=bounds)
+
+
+PROPS["C19"] = dict(
+    level="model_checking",
+    explanation="S1 on the real ClassifyMsg and OnMsg of both tss-lib adapters; the routing oracle (type URL -> IsBroadcast, phase) is regenerated on every run from the New...Message constructors of the tss-lib "
+                "sources the adapters are built against; all pairs of message types; sender binding for every (claimed key, transport sender) pair",
+    pre=["python3", "@VERIF@/gen_c19.py", "ecdsa", "eddsa"],
+    assumptions=COMMON_ENV + ["proto.Unmarshal stubbed to yield an Any with a type URL from the library's set; tss.ParseWireMessage stubbed to return a message with an arbitrary embedded sender key (or fail); "
+                              "math/big modelled by a 64-bit side table (NewInt, Cmp, Uint64)", "package initialisers executed (the two tables), curve registration stubbed"],
+    outside=["protobuf and tss-lib internals", "Sign's digest binding (bytes.Equal(sigOut.M, msgToSign.Bytes()) needs the local party and big.Int arithmetic: read, not encoded)", "hashToInt"],
+    runs=[
+        _c19("ecdsa", "verifH_C19_classify", ["end"], {"message types": "all 14 x 14 pairs"}),
+        _c19("ecdsa", "verifH_C19_sender", ["delivered", "dropped"], {"from": "all 16-bit", "claimed key": "all 32-bit values, or missing", "parse": "ok or fails"}),
+        _c19("eddsa", "verifH_C19_classify", ["end"], {"message types": "all 6 x 6 pairs"}),
+        _c19("eddsa", "verifH_C19_sender", ["delivered", "dropped"], {"from": "all 16-bit", "claimed key": "all 32-bit values, or missing"}),
+    ],
+)
